@@ -230,6 +230,17 @@ impl Layer {
         self.sixels.retain(|x| !x.as_rectangle(font_dims).is_inside(pos) || pos.y != x.position.y);
     }
 
+    /// Writes a cell whatever the lock state of the layer: undo and redo put back what an edit recorded.
+    pub(crate) fn restore_char(&mut self, pos: Position, attributed_char: AttributedChar) {
+        if pos.x < 0 || pos.y < 0 || pos.x >= self.get_width() || pos.y >= self.get_height() {
+            return;
+        }
+        if pos.y >= self.lines.len() as i32 {
+            self.lines.resize(pos.y as usize + 1, Line::create(self.size.width));
+        }
+        self.lines[pos.y as usize].set_char(pos.x, attributed_char);
+    }
+
     /// .
     ///
     /// # Panics
@@ -359,7 +370,7 @@ impl Layer {
         for y in area.y_range() {
             for x in area.x_range() {
                 let pos = Position::new(x, y);
-                self.set_char(pos + target_pos, layer.get_char(pos));
+                self.restore_char(pos + target_pos, layer.get_char(pos));
             }
         }
     }
